@@ -1,0 +1,39 @@
+//go:build verif
+
+// Package verifhook provides named schedule points for runtime verification.
+// This file is only compiled with -tags verif.
+package verifhook
+
+import "sync/atomic"
+
+type cb struct {
+	f func(name string, arg any)
+}
+
+var cur atomic.Pointer[cb]
+
+// Set installs f as the callback invoked at every Point. nil removes it.
+func Set(f func(name string, arg any)) {
+	if f == nil {
+		cur.Store(nil)
+		return
+	}
+	cur.Store(&cb{f: f})
+}
+
+// Point marks a named schedule point.
+func Point(name string) {
+	if c := cur.Load(); c != nil {
+		c.f(name, nil)
+	}
+}
+
+// PointArg is Point with an attached value (e.g. the connection object).
+func PointArg(name string, arg any) {
+	if c := cur.Load(); c != nil {
+		c.f(name, arg)
+	}
+}
+
+// Enabled reports whether hooks are compiled in.
+const Enabled = true
